@@ -106,6 +106,8 @@ def _site_statements(sp):
         # chained expressions: two uses that begin at the same source position
         ("tonl-chain-func-method", "%sMockH().Reset()" % q), ("tonl-chain-lit-method", "_ = %s{}.Fire()" % H), ("tonl-chain-plain", "_ = %sGetH().Fire()" % q),
         ("pkgo-chain-func-method", "_ = %sInternalS().Open()" % q), ("pkgo-chain-lit-method", "_ = %s{}.Look()" % S),
+        ("pkgo-promoted-method", "bx# := struct{ *%s }{s}; @@_ = bx#.Open()" % spl0(sp, "Secret")),
+        ("pkgo-promoted-method-value", "by# := struct{ *%s }{s}; @@gy# := by#.Open; _ = gy#" % spl0(sp, "Secret")),
         ("pkgo-func", "_ = %sInternal()" % q), ("pkgo-func-bare", "_ = %sBareOnly()" % q), ("pkgo-func-path", "_ = %sByPath()" % q),
         ("pkgo-func-free", "_ = %sFree()" % q), ("pkgo-method", "_ = s.Open()"), ("pkgo-method-value", "g# := s.Open; _ = g#"),
         ("pkgo-method-free", "_ = s.Peek()"), ("pkgo-method-samename", "_ = h.Open()"), ("pkgo-type-var", "var sv# %s; _ = sv#" % S), ("pkgo-type-lit", "_ = %s{}" % S),
@@ -119,6 +121,10 @@ def _site_statements(sp):
         ("tonl-else-if", "if %sMock() > 5 {\n\t@2@_ = %sMock()\n} else if @3@%sMock() > 1 {\n\t_ = 0\n}" % (q, q, q)),
         ("sibling-h-method", "getH().Reset()"), ("sibling-t-write", "getT().F = 11"), ("sibling-h-elided", "_ = hlist{{}, {N: 2}}"),
         ("sibling-s-method", "_ = getS().Open()"),
+        # a file WITHOUT imports reaches the annotated type through an alias / a container type declared in a sibling file
+        ("sibling-t-lit", "_ = sibT{}"), ("sibling-t-new", "_ = new(sibT)"), ("sibling-t-var", "var sv# sibT; _ = sv#"),
+        ("sibling-t-elided", "_ = sibTs{{}, {F: 1}}"), ("sibling-t-alias-write", "var sw# *sibT = getT(); @@sw#.F = 12"),
+        ("sibling-s-var", "var ss# *sibS; _ = ss#"),
     ]
 
 
@@ -174,6 +180,9 @@ def gen_decl_package(W, rng, full=False):
                                           "\t{", "\t\tr := o", "\t\t/*@" + W.wid + "d-shadow-overwrite:shadow*/ *r = U{}", "\t}", "}"]))
     W.add("d", "funcs.go", Decl("T.Val", ["func (r T) Val() int {", "\t/*@" + W.wid + "d-valrecv-write:imm-assign*/ r.F = 6", "\treturn r.F", "}"]))
     W.add("d", "funcs.go", Decl("T.Inc", ["func (r *T) Inc() {", "\t/*@" + W.wid + "d-recv-self:recv*/ *r = *r", "}"]))
+    W.add("d", "types.go", Decl("TAlias", ["type TAlias = T", "type TPtrAlias = *T"]))
+    W.add("d", "funcs.go", Decl("TAlias.ResetA", ["func (r *TAlias) ResetA() {", "\t/*@" + W.wid + "d-aliasrecv-overwrite:recv*/ *r = T{}", "\t/*@" + W.wid + "d-aliasrecv-write:imm-assign*/ r.F = 7", "}"]))
+    W.add("d", "funcs.go", Decl("TAlias.ParenR", ["func (r *(T)) ParenR() {", "\t/*@" + W.wid + "d-parenrecv-overwrite:recv*/ *r = T{}", "}"]))
     # an unexported annotated type that importers can still instantiate and mutate without naming it
     W.add("d", "types.go", Decl("hidden", ["type hidden struct{ V int }"], doc=pick([["// @constructor newHidden", "// @immutable"], ["// @constructor newHidden"], ["// @immutable"], ["// hidden is plain."]])))
     W.add("d", "types.go", Decl("HiddenList", ["type HiddenList []hidden", "type HiddenPtrs []*hidden", "type HiddenAlias = hidden"]))
@@ -224,6 +233,11 @@ def spelling(W, mode):
 FKINDS = ["func", "func", "func", "ctorname", "method", "pkgvar", "testonlyfn"]
 
 
+def spl0(sp, k):
+    """the spelling of a type without parentheses (type declarations)"""
+    return {"T": "d.T", "Secret": "d.Secret"}[k] if sp.get("mode") == "paren" else sp[k]
+
+
 def add_user_package(W, rng, dname, pkgname, sp, nfuncs, sid_prefix, test_file=False, nfiles=1, stats=None):
     W.add_pkg(dname, pkgname)
     fnames = ["%s%d.go" % (dname, i) for i in range(nfiles)]
@@ -235,7 +249,8 @@ def add_user_package(W, rng, dname, pkgname, sp, nfuncs, sid_prefix, test_file=F
     q = sp["q"]
     # helpers through which a file WITHOUT imports reaches the declaring package
     W.add(dname, fnames[0], Decl("siblings", ["func getH() *%s { return %sGetH() }" % (sp["H"], q), "func getT() *%s { return %sGetT() }" % (sp["T"], q),
-                                              "func getS() *%s { return %sGetS() }" % (sp["Secret"], q), "type hlist []%s" % sp["H"]]))
+                                              "func getS() *%s { return %sGetS() }" % (sp["Secret"], q), "type hlist []%s" % sp["H"],
+                                              "type sibT = %s" % spl0(sp, "T"), "type sibTs []%s" % spl0(sp, "T"), "type sibS = %s" % spl0(sp, "Secret")]))
     noimp = "%s_noimp.go" % dname
     W.add_file(dname, noimp, [])
     sib = [x for x in stmts if x[0].startswith("sibling-")]
@@ -243,7 +258,9 @@ def add_user_package(W, rng, dname, pkgname, sp, nfuncs, sid_prefix, test_file=F
     for tag, line in sib:
         if rng.random() < 0.7:
             sid = "%s%sn%d" % (W.wid, sid_prefix, len(nb))
-            nb.append("/*@%s:%s*/ " % (sid, tag) + line)
+            mk = "/*@%s:%s*/ " % (sid, tag)
+            line = line.replace("#", "n%d" % len(nb))
+            nb.append(line.replace("@@", mk) if "@@" in line else mk + line)
             if stats is not None:
                 stats["tags"][tag] = stats["tags"].get(tag, 0) + 1
     W.add(dname, noimp, Decl("%sNoImp" % dname.capitalize(), ["func %sNoImp() {" % dname.capitalize()] + ["\t" + l for l in nb] + ["}"]))
@@ -359,6 +376,30 @@ def add_impl_multifile(W):
     W.pkgs["mf"]["no_move"] = True
 
 
+def add_testvariant_tree(W):
+    root, wid = W.root, W.wid
+    # a package that exists in two type-checked instances when tests are loaded: annotations declared in its in-package
+    # test file, used by its external test package, while another package imports the plain instance
+    W.add_pkg("tv/a", "a")
+    W.add_file("tv/a", "a.go", [])
+    W.add("tv/a", "a.go", Decl("plain", ["type Plain struct{ P int }", "const Anchor = 0"]))
+    W.add_file("tv/a", "export_test.go", [])
+    W.add("tv/a", "export_test.go", Decl("Hid", ["type Hid struct{ F int }"], doc=["// @immutable", "// @constructor NewHid"]))
+    W.add("tv/a", "export_test.go", Decl("NewHid", ["func NewHid() *Hid { return &Hid{} }"]))
+    W.add("tv/a", "export_test.go", Decl("Guarded", ["func Guarded() int { return 1 }"], doc=["// @packageonly nobody"]))
+    W.pkgs["tv/a"]["no_move"] = True
+    W.add_pkg("tv/aext", "a_test")
+    W.pkgs["tv/aext"]["dir"] = "tv/a"
+    W.pkgs["tv/aext"]["no_move"] = True
+    W.add_file("tv/aext", "a_ext_test.go", ['"%s/tv/a"' % root])
+    W.add("tv/aext", "a_ext_test.go", Decl("extuse", ["func extuse(h *a.Hid) {", "\t/*@%stv0:tv-write*/ h.F = 1" % wid, "\t/*@%stv1:tv-lit*/ _ = a.Hid{}" % wid,
+                                                      "\t/*@%stv2:tv-pkgo*/ _ = a.Guarded()" % wid, "}"]))
+    W.add_pkg("tv/b", "b")
+    W.add_file("tv/b", "b.go", ['"%s/tv/a"' % root])
+    W.add("tv/b", "b.go", Decl("b", ["var B = a.Plain{}"]))
+    W.pkgs["tv/b"]["no_move"] = True
+
+
 def full_world(rng, wid, modroot="w", stats=None, full_annotations=False, spelling_mode=None, with_impl=False, ctor_names=True):
     W = World(wid, "%s/%s" % (modroot, wid))
     W.meta["ctor_names"] = ctor_names
@@ -383,6 +424,7 @@ def full_world(rng, wid, modroot="w", stats=None, full_annotations=False, spelli
     if with_impl:
         add_impl_package(W)
         add_impl_multifile(W)
+    add_testvariant_tree(W)
     return W
 
 
@@ -396,7 +438,8 @@ def near_miss(rng, line, stats=None):
     if not m or m.group(2) not in KEYWORDS:
         return [line]
     ind, kw, rest = m.group(1), m.group(2), m.group(3)
-    kind = rng.choice(["mid-sentence", "capitalised", "upper", "longer-word", "block-comment", "split", "prefixed-word", "commented-out", "quoted", "double-slash", "triple-slash", "slash-blank-slash"])
+    kind = rng.choice(["mid-sentence", "capitalised", "upper", "longer-word", "block-comment", "split", "prefixed-word", "commented-out", "quoted", "double-slash", "triple-slash", "slash-blank-slash",
+                       "block-multiline", "block-multiline-tab", "othercase-then-lower", "uppercase-then-lower"])
     if stats is not None:
         stats.setdefault("near_miss", {})
         stats["near_miss"][kind] = stats["near_miss"].get(kind, 0) + 1
@@ -413,8 +456,14 @@ def near_miss(rng, line, stats=None):
         "double-slash": ind + "// // @" + kw + rest,
         "triple-slash": ind + "/// @" + kw + rest,
         "slash-blank-slash": ind + "// / @" + kw + rest,
+        # a block doc comment one of whose inner lines, taken alone, would be an annotation line
+        "block-multiline": ind + "/*\n" + ind + "// @" + kw + rest + "\n" + ind + "*/",
+        "block-multiline-tab": ind + "/* the old form was\n" + ind + "\t// @" + kw + rest + "\n" + ind + "   and is gone */",
+        # the keyword in another case where the grammar wants it, and in the right case only later in the line
+        "othercase-then-lower": ind + "// @" + kw.capitalize() + rest + " was the old tag; \"@" + kw + rest + "\" is not used any more",
+        "uppercase-then-lower": ind + "// @" + kw.upper() + rest + " (now spelled @" + kw + ")",
     }[kind]
-    return [out]
+    return out.split("\n")
 
 
 def nearmiss_world(rng, wid, modroot="w", stats=None):
